@@ -493,22 +493,27 @@ def file_c():
 def file_d():
     """ELF64 LE; a DWARF 4 unit and a DWARF 2 unit that SHARE one abbreviation table (32-bit DWARF, address size 8), with
     a declaration used in both whose DW_FORM_ref_addr attribute is offset-sized (4) in the first and address-sized (8)
-    in the second unit."""
+    in the second unit; both units name one ill-formed line program."""
     b = Builder(True)
     def gref(name, label):
         return Die(DW_TAG_variable, [(DW_AT_name, F_string, name), (DW_AT_type, F_ref_addr, ('ref', 'base'))], label=label)
     def base(label):
         return Die(DW_TAG_base_type, [(DW_AT_name, F_string, b'i'), (DW_AT_byte_size, F_data1, 4)], label=label)
-    u0 = Unit(4, Die(DW_TAG_compile_unit, [(DW_AT_name, F_string, b'r.c')],
+    u0 = Unit(4, Die(DW_TAG_compile_unit, [(DW_AT_name, F_string, b'r.c'), (DW_AT_stmt_list, F_sec_offset, 0)],
                      [base('base'), gref(b'p', 'p'), gref(b'q', 'q')]))
-    u1 = Unit(2, Die(DW_TAG_compile_unit, [(DW_AT_name, F_string, b's.c')],
+    u1 = Unit(2, Die(DW_TAG_compile_unit, [(DW_AT_name, F_string, b's.c'), (DW_AT_stmt_list, F_sec_offset, 0)],
                      [base('base2'), gref(b'x', 'x'), gref(b'y', 'y')]))
     u1.share_abbrev_with = 0
     info, abbrev, labels = b.build_info([u0, u1])
+    # an ILL-FORMED line program: its unit_length reaches 40 bytes past the end of .debug_line, so decoding runs off the
+    # section after a few rows (the header itself parses)
+    prog = b.lp_set_address(0x10) + bytes([0x14, 0x21, 0x02, 0x04])
+    line = bytearray(b.line_v4(3, [(b'r.c', 0)], prog))
+    line[0:4] = b.u(4, len(line) - 4 + 40)
     dynstr = b'\0libq.so\0'
     img = elf_image(True, True,
                     [(b'.text', 1, b'\x90' * 8, 6), (b'.debug_info', 1, info, 0), (b'.debug_abbrev', 1, abbrev, 0),
-                     (b'.debug_str', 1, bytes(b.strtab) or b'\0', 0)],
+                     (b'.debug_str', 1, bytes(b.strtab) or b'\0', 0), (b'.debug_line', 1, bytes(line), 0)],
                     [_sym(b'', 0, 0, 0, 0), _sym(b'r', 0x10)], [(1, 1), (0, 0)], dynstr, 62)
     return dict(name='D', image=img, labels=labels, units=[u0.off, u1.off])
 
